@@ -93,6 +93,10 @@ func CorpusOps() []Op {
 		out = append(out, Op{Text: q})
 	}
 	out = append(out, Op{Text: `mutation{m1{id name} m2{req kid{id}} m3}`})
+	// an input object with defaulted fields, supplied through ONE variable to several fields
+	// (the generated unmarshaller fills the defaults in; the request's variables stay untouched)
+	out = append(out, Op{Text: `query($i:In){a:inp(in:$i) b:inp(in:$i) t{x:inp(in:$i) y:inp(in:$i) kids{inp(in:$i)}}}`, Vars: map[string]any{"i": map[string]any{"b": "x"}}})
+	out = append(out, Op{Text: `query($i:In){inp(in:$i) t{inp(in:{b:"lit"})}}`, Vars: map[string]any{"i": map[string]any{}}})
 	return out
 }
 
